@@ -19,7 +19,7 @@ RULE = (
     "number / sequence / element, optional defaults) whose bodies are drawn from: a bare parameter, the second parameter, "
     "unary/arithmetic/conditional over parameters, attribute of a parameter, a constant of the module, nested lambdas and comprehensions re-using a "
     "parameter name, an explicitly called inner lambda, calls to earlier helpers (1-3 deep), tuples; called from a lambda "
-    "passed to Select with positional / keyword / re-ordered / mixed / default-omitting call shapes, with argument "
+    "passed to Select with positional / keyword / re-ordered / mixed / default-omitting / starred-tuple call shapes, with argument "
     "expressions that mention names also bound inside the helper (outer binders named like helper parameters and like the "
     "helper's inner binders). Non-trivial = >=1 helper was actually inlined (its name no longer occurs in the emitted lambda). "
     "Distinct by module text."
@@ -180,9 +180,14 @@ def _case(draw):
         shape = draw(st.integers(0, 4))
         if h.get("slash"):
             shape = 0
+        star = args and draw(st.integers(0, 9)) == 0  # the positional arguments handed over as one starred tuple
+        if star:
+            shape = 0
         while args and args[-1][2] is not None and draw(st.booleans()):
             args = args[:-1]  # omit a trailing defaulted parameter (some, all or none of them)
-        if shape == 0 or len(args) == 0:
+        if star and args:
+            call = "*(" + ", ".join(a for _, a, _ in args) + ",)"
+        elif shape == 0 or len(args) == 0:
             call = ", ".join(a for _, a, _ in args)
         elif shape == 1:
             call = ", ".join(f"{n}={a}" for n, a, _ in args)
